@@ -323,7 +323,8 @@ def g_spectrum(s, P):
     nd = s.choice([1, 2, 2, 3])
     ns = [s.choice([2, 3, 4, 6]) for _ in range(nd)]
     ids = None if s.chance(0.4) else s.choice([['A', 'B', 'C'], ['pop one', 'b', 'c c']])[:nd]
-    fs = P.add('mk_spectrum', s.randint(0, 9), [n + 1 for n in ns], s.choice([0.0, 0.15]), False, ids)
+    corners = not s.chance(0.25)
+    fs = P.add('mk_spectrum', s.randint(0, 9), [n + 1 for n in ns], s.choice([0.0, 0.15]), False, ids, 10.0, False, corners)
     other = P.add('mk_spectrum', s.randint(0, 9), [n + 1 for n in ns], s.choice([0.0, 0.15]), False, ids)
     cur = fs
     for _ in range(s.randint(2, 8)):
@@ -517,7 +518,7 @@ def g_badcalls(s, P):
     fs = P.add('from_phi', phi2, [4, 3], T(xx, xx))
     f1 = P.add('mk_spectrum', s.randint(0, 3), [7], 0.1)
     for _ in range(s.randint(2, 6)):
-        r = s.randrange(14)
+        r = s.randrange(15)
         if r == 0:
             P.add('S.project', fs, [6, 3])                      # projecting up
         elif r == 1:
@@ -545,10 +546,12 @@ def g_badcalls(s, P):
             P.add('G.sum_chi2_ppf', 1.0, [0.5, 0.6])             # weights do not sum to one
         elif r == 12:
             P.add('phi_2D_to_3D_admix', phi2, 1.5, xx, xx, xx)   # f > 1
+        elif r == 13:
+            P.add('cuda_enabled', True)                          # no GPU here: the import fails and is handled; must leave the CPU path intact
         else:
             P.add('Integration.one_pop', phi1, xx, 0.01, -1.0)   # negative population size
         # ordinary calls afterwards
-        q = s.randrange(5)
+        q = s.randrange(6)
         if q == 0:
             P.add('S.project', fs, [2, 2])
         elif q == 1:
@@ -557,8 +560,14 @@ def g_badcalls(s, P):
             P.add('S.fold', f1)
         elif q == 3:
             P.add('from_phi', phi2, [3, 3], T(xx, xx))
+        elif q == 4:
+            P.add('ORACLE.demes_output_twice', pts, s.choice([0.1, 0.3]), 0.03, 0.02, s.choice([100, 1000]))
         else:
             P.add('E4.seterr_probe')
+    if s.chance(0.3):
+        # the caller edits the grid it was handed, in place; other clients' and later grids of the same size must not notice
+        g2 = P.add(s.choice(['grid', 'grid_exp']), s.choice([6, 8, 10]))
+        P.add('A.setitem', g2, s.randint(1, 4), 0.123)
     return P
 
 
